@@ -121,8 +121,11 @@ func NewGen(r *vh.Rand, p Profile) (*Case, Gen) {
 		adj = RandomGraph(r, n)
 	}
 	c := &Case{N: n, UseAgent: p.Agent, Settle: true}
-	if p.Agent && r.Chance(1, 2) {
-		c.MgmtKey = true
+	if (p.Agent && r.Chance(1, 2)) || (!p.Agent && r.Chance(1, 3)) {
+		c.MgmtKey = true // management public key configured: sealed box present in every flooder
+	}
+	if r.Chance(1, 4) {
+		c.LongName = []int{r.Intn(n)} // a display name of 400 bytes in 200 characters
 	}
 	c.Limits = make([]int, n)
 	switch p.Limits {
@@ -166,6 +169,8 @@ func NewGen(r *vh.Rand, p Profile) (*Case, Gen) {
 		id := r.Pick(1, 1, 2, 3)
 		if kind == KCidr && r.Chance(1, 6) {
 			id = 200 + r.Intn(2)
+		} else if kind == KCidr && r.Chance(1, 8) {
+			id = 150 + r.Intn(2) // IPv4-mapped spelling
 		}
 		metric := 0
 		if r.Chance(1, 5) {
